@@ -296,6 +296,11 @@ func init() {
 						groups = append(groups, ref.Group{Start: start, End: start + sz})
 						start += sz
 					}
+					// plonky2 multiplies over every row index of the group range, whether or not a gate
+					// sits there: sometimes let the last group run past the gate list
+					if r.Intn(3) == 0 {
+						groups[len(groups)-1].End += 1 + r.Intn(3)
+					}
 					nsel := len(groups)
 					consts := make([]ref.E, nsel+c15Consts)
 					for i := range consts {
